@@ -390,7 +390,7 @@ var c04Seeds = []string{
 
 func runC04(c *core.Ctx) {
 	pool := cfg.NewPool()
-	safe := cfg.Safe()
+	safe := append(cfg.Safe(), richSafe()...)
 	corpus := loadCorpus(c)
 	r := c.Rng
 	if c.Shard == 0 {
